@@ -10,3 +10,4 @@ CONSTANTS
   Resizes <- AltResizes
   MaxDepth = 3
   Emit = TRUE
+  CheckDump = FALSE
